@@ -297,7 +297,7 @@ def _vec_arg(c, i=0, st=None):
 def m_push(c):
     arr, loc = _vec_arg(c)
     v, _ = c.arg(1)
-    c.I.emit("mutate", call=c, loc=loc, op="push")
+    c.I.emit("mutate", call=c, loc=loc, op="push", value=v)
     if arr is None or loc is None:
         c.ret(UNIT)
         return
@@ -381,7 +381,7 @@ def m_extend_from_slice(c):
     arr, loc = _vec_arg(c)
     sv, _ = c.arg(1)
     sarr, sloc = arr_at(c, sv)
-    c.I.emit("mutate", call=c, loc=loc, op="append")
+    c.I.emit("mutate", call=c, loc=loc, op="append", slice=sarr)
     if arr is None or loc is None:
         c.ret(UNIT)
         return
@@ -399,7 +399,7 @@ def m_extend_from_slice(c):
 def m_extend(c):
     arr, loc = _vec_arg(c)
     itv, iloc = c.arg(1)
-    c.I.emit("mutate", call=c, loc=loc, op="append")
+    c.I.emit("mutate", call=c, loc=loc, op="append", iter=itv)
     if arr is None or loc is None:
         c.ret(UNIT)
         return
